@@ -68,7 +68,17 @@ def reunit(scn, seed, stats=None):
                 key = min(g)
                 if key not in done:
                     done[key] = conv(kind, els[key[0]][key[1]])
-                e[p] = list(done[key])
+                    # mated helical gears may state the same helix angle in
+                    # different units: the library compares them with its
+                    # tolerance.  Only units in which an angle below 90 deg
+                    # is a small number are used (the band is absolute)
+                    done[(key, 'own')] = p == 'beta' and \
+                        e['kind'] == 'HelicalGear' and rng.random() < 0.5
+                if done.get((key, 'own')):
+                    e[p] = conv(kind, els[key[0]][key[1]],
+                                rng.choice(['rad', 'deg', 'rot']))
+                else:
+                    e[p] = list(done[key])
             else:
                 e[p] = conv(kind, e[p])
     if b.get('init'):
@@ -123,9 +133,16 @@ def run(scn, H, execu):
         msg = ev['exc'][1]
         # an equality/ordering decision within rounding of its threshold
         # (the exclusion written into C07): gearpy's 1e-12 absolute band
+        helix_units_small = all(
+            e_['beta'][1] in ('rad', 'deg', 'rot')
+            for sc_ in (scn, b) for e_ in sc_['elements']
+            if e_.get('kind') == 'HelicalGear' and e_.get('beta'))
         if ev['exc'][0] == 'ValueError' and (
                 'not available' in msg or 'different' in msg or
-                'too high' in msg):
+                'too high' in msg) and not (
+                'helix' in msg and 'different' in msg and helix_units_small):
+            # (two equal helix angles stated in rad / deg / rot are far
+            # inside the library's tolerance: their rejection is judged)
             st['threshold_fragile'] += 1
             return H, out, st
         kind = scn['elements'][diff[0][1]]['kind'] \
